@@ -121,6 +121,58 @@ pub trait Tab: Clone + Eq + Ord + Hash + Debug + Send + Sync + Sized + 'static {
     fn t_to_lut(&self) -> Lut;
     /// `d.clone_from(self)` where `d` is an existing table (of `m` variables for the dynamic type)
     fn t_clone_from_into(&self, m: usize) -> Self;
+    /// Run a script of iterator calls on the concrete iterator type (not through `Box<dyn>`):
+    /// `start = None`: `all_functions(n)`; `Some(t)`: the hooked iterator positioned on `t`.
+    fn t_iter_script(n: usize, start: Option<&Self>, script: &[IterOp], step: &mut dyn FnMut(usize, IterObs<Self>) -> bool);
+}
+
+/// One call on an `all_functions` iterator (adaptors are applied to `it.by_ref()`).
+#[derive(Clone, Copy, Debug, PartialEq, Eq)]
+pub enum IterOp {
+    Next,
+    Nth(usize),
+    SizeHint,
+    /// `it.by_ref().skip(k).next()`
+    SkipNext(usize),
+    /// `it.by_ref().step_by(s).take(t).collect()`
+    StepBy(usize, usize),
+    /// `it.by_ref().take(k).count()`
+    TakeCount(usize),
+    /// `it.by_ref().count()` (only scripted when few items remain)
+    Count,
+    /// `it.by_ref().last()` (only scripted when few items remain)
+    Last,
+}
+
+#[derive(Clone, Debug, PartialEq, Eq)]
+pub enum IterObs<L> {
+    Item(Option<L>),
+    Hint(usize, Option<usize>),
+    Items(Vec<L>),
+    Count(usize),
+}
+
+/// `step` sees every observation as soon as it is made and stops the script by returning false
+/// (so that a call is never made on an iterator that has already departed from the model).
+pub fn run_iter_script<L, I: Iterator<Item = L>>(mut it: I, script: &[IterOp], step: &mut dyn FnMut(usize, IterObs<L>) -> bool) {
+    for (k, op) in script.iter().enumerate() {
+        let o = match *op {
+            IterOp::Next => IterObs::Item(it.next()),
+            IterOp::Nth(k) => IterObs::Item(it.nth(k)),
+            IterOp::SizeHint => {
+                let (a, b) = it.size_hint();
+                IterObs::Hint(a, b)
+            }
+            IterOp::SkipNext(k) => IterObs::Item(it.by_ref().skip(k).next()),
+            IterOp::StepBy(s, t) => IterObs::Items(it.by_ref().step_by(s).take(t).collect()),
+            IterOp::TakeCount(k) => IterObs::Count(it.by_ref().take(k).count()),
+            IterOp::Count => IterObs::Count(it.by_ref().count()),
+            IterOp::Last => IterObs::Item(it.by_ref().last()),
+        };
+        if !step(k, o) {
+            return;
+        }
+    }
 }
 
 macro_rules! common_methods {
@@ -377,6 +429,12 @@ impl Tab for Lut {
         d.clone_from(self);
         d
     }
+    fn t_iter_script(n: usize, start: Option<&Self>, script: &[IterOp], step: &mut dyn FnMut(usize, IterObs<Self>) -> bool) {
+        match start {
+            None => run_iter_script(Lut::all_functions(n), script, step),
+            Some(t) => run_iter_script(Lut::verif_iter_from(t.clone()), script, step),
+        }
+    }
     common_methods!();
 }
 
@@ -454,6 +512,13 @@ impl<const N: usize, const T: usize> Tab for StaticLut<N, T> {
         let mut d = Self::one();
         d.clone_from(self);
         d
+    }
+    fn t_iter_script(n: usize, start: Option<&Self>, script: &[IterOp], step: &mut dyn FnMut(usize, IterObs<Self>) -> bool) {
+        assert_eq!(n, N, "harness: static size");
+        match start {
+            None => run_iter_script(Self::all_functions(), script, step),
+            Some(t) => run_iter_script(Self::verif_iter_from(*t), script, step),
+        }
     }
     common_methods!();
 }
